@@ -8,6 +8,7 @@
 import GherkinVerif.Lemmas.Glue
 import GherkinVerif.Spec.TableFacts
 import GherkinVerif.Gen.ParserTable
+import GherkinVerif.KDecide
 namespace GV
 
 /-- Every message starts with its own `(line:column): ` position (column 0 when absent). -/
@@ -28,14 +29,14 @@ theorem C14_unexpected_form (row : StateRow) (t : Token) :
 /-- facts about the regenerated table: each state's expected list is the de-duplicated list of
     its tests in order; every error tail returns its own state (parsing carries on from the same
     position with the next line). -/
-theorem C14_expected_lists : Spec.expectedIsTests Gen.parserTable = true := by decide +kernel
-theorem C14_recovery_same_state : Spec.errTailSelf Gen.parserTable = true := by decide +kernel
+theorem C14_expected_lists : Spec.expectedIsTests Gen.parserTable = true := by kdecide
+theorem C14_recovery_same_state : Spec.errTailSelf Gen.parserTable = true := by kdecide
 
 /-- the state after a tag line not followed by Examples or Scenario is the Rule-header tags state,
     whose list is that of a Rule header -/
 theorem C14_rule_header_tags_state :
     (Gen.parserTable.row? 18).map (·.expected) = some ["#TagLine", "#RuleLine", "#Comment", "#Empty"] := by
-  decide +kernel
+  kdecide
 
 /-- Identical messages are reported once and parsing stops after the eleventh error: in
     collecting mode the error list never holds two equal messages and never exceeds `cap + 1`. -/
